@@ -4,9 +4,10 @@ CXX      := clang++
 CXXFLAGS := -std=gnu++17 -g -O1 -fsanitize=address,undefined -fno-omit-frame-pointer -Wall -Wno-unused-function
 B        := build/fw
 PROPS    := $(patsubst props/%.cpp,$(B)/%.o,$(wildcard props/*.cpp))
+MODS     := $(patsubst modules/%.cpp,$(B)/mod_%.o,$(wildcard modules/*.cpp)) $(patsubst modules/%.cpp,$(B)/mod_%_fast.o,$(wildcard modules/*.cpp))
 HDRS     := $(wildcard fw/*.hpp)
 
-setup: $(B)/simk.o $(PROPS)
+setup: $(B)/simk.o $(PROPS) $(MODS)
 
 $(B)/simk.o: fw/simk.cpp $(HDRS)
 	@mkdir -p $(B)
@@ -15,6 +16,14 @@ $(B)/simk.o: fw/simk.cpp $(HDRS)
 $(B)/%.o: props/%.cpp $(HDRS)
 	@mkdir -p $(B)
 	$(CXX) $(CXXFLAGS) -c $< -o $@
+
+$(B)/mod_%.o: modules/%.cpp $(HDRS)
+	@mkdir -p $(B)
+	$(CXX) $(CXXFLAGS) -O2 -c $< -o $@
+
+$(B)/mod_%_fast.o: modules/%.cpp $(HDRS)
+	@mkdir -p $(B)
+	$(CXX) -std=gnu++17 -g -O2 -Wall -Wno-unused-function -c $< -o $@
 
 clean:
 	rm -rf build
